@@ -62,7 +62,9 @@ def guard_prefix(rng, access, dets):
     out = []
     for d in dets:
         field, const, op = GUARDS[d]
-        if access[0] == "abs":
+        if access[0] == "self":
+            rd = [("txn", field[0])]
+        elif access[0] == "abs":
             rd = [("gtxn", access[1], field[0])] if rng.random() < 0.5 else [("int", access[1]), ("gtxns", field[0])]
         else:
             k = access[1]
@@ -82,7 +84,13 @@ def gen_guarded_config(rng):
         # a logic-sig that validates ITS OWN fields through `gtxn i`, i being its configured absolute index
         i = rng.choice([0, 1, 2, 3])
         c = fragment.generate(rng, PROFILE)
-        prog = guard_prefix(rng, ("abs", i), dets) + c["prog"]
+        if rng.random() < 0.5:
+            # ... on one accepting exit through `txn`, on the others through `gtxn i`
+            prog = ([("txn", rng.choice(["Amount", "NumAppArgs", "AssetAmount"])), ("bnz", "VIA_GROUP_SLOT")]
+                    + guard_prefix(rng, ("self",), dets) + [("int", 1), ("return",), ("label", "VIA_GROUP_SLOT")]
+                    + guard_prefix(rng, ("abs", i), dets) + c["prog"])
+        else:
+            prog = guard_prefix(rng, ("abs", i), dets) + c["prog"]
         contracts = {"selfA": (prog, max(c["version"], T.min_version(prog)), "LogicSig")}
         a = {"id": "TB", "type": "txn", "lsig": "selfA", "app": None, "has_lsig": True, "abs": i, "rel": {}}
         return {"contracts": contracts, "txns": [a], "guard": {"mode": "match", "dets": dets, "access": ("own-abs", i)}}
@@ -437,15 +445,18 @@ def check_config(cfg, rng, ctr):
         from vt.ref import walks as W
         wcache = {}
 
-        def no_dangerous_walk(cname, det, target):
+        def danger_pcs(cname, det, target):
+            """(pcs lying on an accepting walk on which the member `target` carries the dangerous value, contract approves
+            something at all, exit pcs); None when the oracle does not apply (recursion, state space)."""
             key = (cname, det, target)
             if key not in wcache:
                 P = wcache.get(("P", cname))
+                prog = cfg["contracts"][cname][0]
                 if P is None:
-                    P = W.Program(cfg["contracts"][cname][0])
+                    P = W.Program(prog)
                     wcache[("P", cname)] = P
                 if P.is_recursive():
-                    wcache[key] = False
+                    wcache[key] = None
                 else:
                     A_ = ("A", "ATTACKER")
                     try:
@@ -456,10 +467,12 @@ def check_config(cfg, rng, ctr):
                         elif det == "can-close-asset":
                             adm = P.admitted(W.Key("AssetCloseTo", target=target), A_)
                         elif det == "missing-fee-check":
+                            rd = inputs.Reads(prog)
                             consts = set()
-                            for ins in cfg["contracts"][cname][0]:
-                                if ins[0] in ("int", "pushint") and isinstance(ins[1], int):
-                                    consts.add(int(ins[1]))
+                            for k2 in range(len(prog)):
+                                v2 = inputs._int_of(prog, k2, rd.intc)
+                                if v2 is not None:
+                                    consts.add(v2)
                             adm = set()
                             for f in inputs.uint_reps(consts, extra=(272000, 272001, (1 << 64) - 1), limit=40):
                                 if f > 272000:
@@ -467,10 +480,29 @@ def check_config(cfg, rng, ctr):
                         else:
                             adm = {0}
                         # is there an accepting walk at all (for any value)?  a contract that never approves clears nothing useful
-                        wcache[key] = (len(adm) == 0) and bool(P.admitted(W.Key("GroupSize"), 16) or P.admitted(W.Key("GroupSize"), 1))
+                        alive = bool(P.admitted(W.Key("GroupSize"), 16) or P.admitted(W.Key("GroupSize"), 1))
+                        exits = set(k2 for k2, ins in enumerate(prog) if ins[0] == "return")
+                        if prog and prog[-1][0] not in T.TERMINATORS:
+                            exits.add(len(prog) - 1)
+                        wcache[key] = (adm, alive, exits)
                     except OverflowError:
-                        wcache[key] = False
+                        wcache[key] = None
             return wcache[key]
+
+        def no_dangerous_walk(cname, det, target):
+            r = danger_pcs(cname, det, target)
+            return bool(r) and r[1] and not r[0]
+
+        def no_dangerous_exit(cname, det, targets):
+            """Per accepting exit, the dangerous value is excluded through one of the access modes in `targets` (all of
+            them denote the judged transaction): no exit lies on a dangerous walk under every one of the readings."""
+            rs = [danger_pcs(cname, det, t_) for t_ in targets]
+            if any(r is None for r in rs) or not rs[0][1]:
+                return False
+            bad = set(rs[0][2])
+            for r in rs:
+                bad &= r[0]
+            return not bad
 
         if not cfg.get("guard") and not satisfiable(cfg):
             ctr["unsatisfiable_configurations_not_judged"] += 1
@@ -486,6 +518,9 @@ def check_config(cfg, rng, ctr):
                             cleared_by = (cname, "txn")
                         if cname and t["abs"] is not None and no_dangerous_walk(cname, det, ("abs", t["abs"])):
                             cleared_by = (cname, "gtxn own index %d" % t["abs"])
+                        if cname and t["abs"] is not None and not cleared_by and no_dangerous_exit(cname, det, ["self", ("abs", t["abs"])]):
+                            cleared_by = (cname, "txn at some exits and gtxn own index %d at the others" % t["abs"])
+                            ctr["cleared_by_mixed_own_access"] += 1
                     for o in cfg["txns"]:
                         if o["id"] == t["id"]:
                             continue
